@@ -2,6 +2,7 @@ import Uquic.Oracle.Frame
 import Uquic.Model.UQuic.QTP
 import Uquic.Spec.QtpMon
 import Uquic.Model.UQuic.FrameKinds
+import Uquic.Model.UQuic.CloneSpec
 
 /-!
 Oracle for the `qtp` driver (property C11). Ops (see harness/drivers/qtp/qtp_test.go):
@@ -21,7 +22,7 @@ Random parts (GREASE ids/values drawn by uTLS, shuffle draws, everything of a re
 from the implementation's output as witnesses and validated; the model then has to reproduce the text.
 -/
 
-open Uquic.Oracle Uquic.Model.QTP Uquic.Spec.QtpMon Uquic.Model.FrameKinds
+open Uquic.Oracle Uquic.Model.QTP Uquic.Spec.QtpMon Uquic.Model.FrameKinds Uquic.Model.CloneSpec
 
 /-- a parameter with the byte mask of its re-drawn GREASE-version slots -/
 structure TP where
@@ -203,6 +204,15 @@ def matchPair (w : Nat × List Nat) (e : TP) : Bool :=
 
 def isGreaseU16 (x : Nat) : Bool := x % 16 == 10 && x / 16 % 16 == x / 4096 % 16 && x / 256 % 16 == 10
 def canonU16 (x : Nat) : Nat := if isGreaseU16 x then 2570 else x
+
+/-- `<type>:<hex>,…` -/
+def parseBodies (s : String) : List (Nat × List Nat) :=
+  if s == "-" || s == "" then [] else
+  (s.splitOn ",").filterMap fun e => match e.splitOn ":" with
+    | [t, b] => match t.toNat?, parseHex b with
+      | some t, some b => some (t, b)
+      | _, _ => none
+    | _ => none
 
 /-! ### state -/
 
@@ -405,19 +415,21 @@ def stepPopulate (toksS scidS impl : String) : StepOut :=
       (if ((ps.filter (fun p => numIDs.contains p.id)).map (·.id)).eraseDups.length != (ps.filter (fun p => numIDs.contains p.id)).length then ["populate:dup-field"] else [])
     { model := model, tags := tags, fails := fails }
 
-def stepSpec (s : St) (base randS idsS toksS impl : String) : St × StepOut :=
+def stepSpec (s : St) (base randS idsS toksS pins impl : String) : St × StepOut :=
   let implIn := (field impl "in=").bind parseCanons |>.getD []
-  let custom := toksS != "="
-  let (inp, okDraw) := if custom then resolve (parseTokens toksS) implIn else (implIn, true)
+  let customList := toksS != "="
+  -- pinned extension contents make the spec a derived one for the fingerprint monitors
+  let custom := customList || pins != "-"
+  let (inp, okDraw) := if customList then resolve (parseTokens toksS) implIn else (implIn, true)
   let want := ((Uquic.Gen.UQuic.quicIDs.find? (fun q => q.1 == base)).map (·.2.2.2)).getD "?"
   let cs := (field impl "cs=").map parseNats |>.getD []
   let scidlen := (field impl "scidlen=").getD "?"
   let model := s!"in={fmtCanons inp} cs={fmtNats cs} want={want} scidlen={scidlen}"
-  let key := s!"{base} {idsS} {toksS}"
+  let key := s!"{base} {idsS} {toksS} {pins}"
   let isRand := randS == "1"
   let g : Ghost := { s with hasSpec := true, key := key, base := base, custom := custom, rand := isRand,
                             sup := parseNats idsS, list := inp, cs := cs, want := want, dials := 0, tpids := none }
-  let tags := ["spec", if custom then "spec:custom" else "spec:builtin"] ++ (if g.rand then ["spec:rand"] else []) ++
+  let tags := ["spec", if customList then "spec:custom" else "spec:builtin"] ++ (if pins != "-" then ["spec:pinned-extensions"] else []) ++ (if g.rand then ["spec:rand"] else []) ++
           (if g.sup.isEmpty then [] else ["spec:suppress"])
   let inS := (field impl "in=").getD "?"
   (g, { model := model, tags := tags, fails := failIf (!okDraw) "grease_draw_valid" "-" s!"in={inS}" })
@@ -495,7 +507,29 @@ def stepDial (s : St) (impl : String) : St × StepOut :=
          | none, _ => [])
        else [])
     | _, _ => []
-  let plumbing :=
+  -- extension CONTENTS against the spec's values as they were before the dial (`Uquic.Model.CloneSpec.specContent`)
+  let snap := parseBodies ((field impl "snap=").getD "-")
+  let xb := parseBodies ((field impl "xb=").getD "-")
+  let ssni := ((field impl "ssni=").bind parseHex).getD []
+  let csni := ((field impl "csni=").bind parseHex).getD []
+  let sks := ((field impl "sks=").map parseNats).getD []
+  let wksS := (field impl "wks=").getD "-"
+  let wks := if wksS == "-" then [] else (wksS.splitOn ",").map fun e => match e.splitOn ":" with
+    | [g, l] => (natOf g, natOf l)
+    | _ => (0, 0)
+  let wantName := match specContent csni (.sni ssni) with | .name n => n | _ => []
+  let contents :=
+    (snap.flatMap fun (t, b) =>
+      match xb.find? (fun w => w.1 == t) with
+      | some w => failIf (w.2 != b) "clienthello_is_spec" "-" s!"extension {t} carries {fmtHex w.2}, the spec's value marshals to {fmtHex b}"
+      | none => [("clienthello_is_spec", "-", s!"extension {t} of the spec is not in the ClientHello")]) ++
+    (match xb.find? (fun w => w.1 == 0) with
+     | some w => failIf (w.2 != sniBody wantName) "clienthello_is_spec" "-"
+        s!"server_name carries {fmtHex w.2}, want {fmtHex (sniBody wantName)} (spec name {fmtHex ssni}, tls.Config name {fmtHex csni})"
+     | none => failIf (!wantName.isEmpty && sexts.contains 0) "clienthello_is_spec" "-" "server_name extension missing") ++
+    failIf (wks.map (·.1) != sks) "clienthello_is_spec" "-" s!"key_share groups on the wire {wksS}, the spec lists {fmtNats sks}" ++
+    failIf (wks.any fun w => w.2 ≤ 1) "clienthello_is_spec" "-" s!"key_share without a key: {wksS}"
+  let plumbing := contents ++
     failIf (cs.map canonU16 != s.cs.map canonU16) "clienthello_is_spec" "-" s!"cipher suites {fmtNats cs}, spec {fmtNats s.cs}" ++
     failIf (exts.map canonU16 != sexts.map canonU16) "clienthello_is_spec" "-" s!"extension order {fmtNats exts}, spec {fmtNats sexts}"
   -- the padding extension (21) is excluded: uTLS adds it depending on the ClientHello length, which a derived
@@ -562,7 +596,8 @@ def step (s : St) (op impl : String) : St × StepOut :=
   | ["shuffle", t] => (s, stepShuffle t impl)
   | ["marshal", t] => (s, stepMarshal t impl)
   | ["populate", t, scid] => (s, stepPopulate t scid impl)
-  | ["spec", base, r, ids, t] => stepSpec s base r ids t impl
+  | ["spec", base, r, ids, t] => stepSpec s base r ids t "-" impl
+  | ["spec", base, r, ids, t, pins] => stepSpec s base r ids t pins impl
   | ["tpids"] => stepTpids s impl
   | ["dial"] => stepDial s impl
   | ["shufdist", n, N] => (s, stepDist "shufdist" n N impl)
